@@ -96,6 +96,7 @@ type State struct {
 	pinned    map[int]uint64
 	btrace    []string
 	files     map[string]bool // names of existing files (copy-on-write)
+	osFiles   map[int]osFile  // *os.File objects created by verifrt.NewFile: content object, size, position (copy-on-write)
 	axiomIDs  map[int]bool // pc entries that are hash-model axioms (not evaluated when validating a lifted stream)
 }
 
@@ -433,4 +434,20 @@ func (s *State) removeFile(p string) {
 		}
 	}
 	s.files = n
+}
+
+// osFile is the executor's model of an *os.File: a growable byte array and a position.
+type osFile struct {
+	content int // heap object holding the Agg of bytes (capacity), of which size are valid
+	size    int
+	pos     int
+}
+
+func (s *State) setOSFile(obj int, f osFile) {
+	n := make(map[int]osFile, len(s.osFiles)+1)
+	for k, v := range s.osFiles {
+		n[k] = v
+	}
+	n[obj] = f
+	s.osFiles = n
 }
